@@ -304,7 +304,7 @@ func buildTrace(file string) {
 		strings.Repeat("long text, with commas; ", 400), []byte(strings.Repeat("\x01\x02,", 3000)))
 	must(err)
 	for i := 0; i < 2600; i++ {
-		_, err := tx.Exec(`INSERT INTO big VALUES (?,?)`, i, fmt.Sprintf("row-%04d-%s", i, strings.Repeat("x", i%37)))
+		_, err := tx.Exec(`INSERT INTO big VALUES (?,?)`, i, fmt.Sprintf("r%04d%s", i, strings.Repeat("x", i%9)))
 		must(err)
 	}
 	must(tx.Commit())
@@ -358,11 +358,10 @@ func dump(db *sql.DB) (string, error) {
 	return hex.EncodeToString(h.Sum(nil)), nil
 }
 
-func copyFile(dst, src string) {
-	b, err := os.ReadFile(src)
-	must(err)
-	must(os.WriteFile(dst, b, 0o644))
-}
+var (
+	tmpl     []byte
+	tmplDump string
+)
 
 func runQuery(in input, c *hx.Case) error {
 	rowCap, byteCap, cellCap, _ := daisen2.VerifDataQueryLimits()
@@ -374,9 +373,15 @@ func runQuery(in input, c *hx.Case) error {
 	dir := filepath.Join(base, "tracedir")
 	must(os.Mkdir(dir, 0o755))
 	file := filepath.Join(dir, "trace.sqlite3")
-	buildTrace(file)
 	ref := filepath.Join(base, "ref.sqlite3")
-	copyFile(ref, file)
+	if tmpl == nil { // the trace file is built once per process and copied for every case
+		buildTrace(ref)
+		b, rerr := os.ReadFile(ref)
+		must(rerr)
+		tmpl = b
+	}
+	must(os.WriteFile(file, tmpl, 0o644))
+	must(os.WriteFile(ref, tmpl, 0o644))
 
 	q := strings.ReplaceAll(string(toBytes(in.SQL)), "%DIR%", dir)
 
@@ -386,8 +391,11 @@ func runQuery(in input, c *hx.Case) error {
 	refDB, err := sql.Open("sqlite3", "file:"+ref+"?mode=ro&immutable=1")
 	must(err)
 	defer refDB.Close()
-	wantDump, err := dump(refDB)
-	must(err)
+	if tmplDump == "" {
+		tmplDump, err = dump(refDB)
+		must(err)
+	}
+	wantDump := tmplDump
 
 	hDB, hWal, ls := fileHash(file), fileHash(file+"-wal"), listing(dir)
 
@@ -442,9 +450,14 @@ func runQuery(in input, c *hx.Case) error {
 	safe, sanErr := daisen2.VerifSanitizeReadonlySQL(q, rowCap)
 	obsSan := sresTerm(safe, sanErr)
 	refT := hx.None()
-	if sanErr == nil && in.TimeoutMS == 0 {
+	refNote := ""
+	if sanErr == nil && (in.TimeoutMS == 0 || qerr == nil) {
 		rctx, rcancel := context.WithTimeout(context.Background(), 20*time.Second)
-		if rs, rerr := refDB.QueryContext(rctx, safe); rerr == nil {
+		rs, rerr := refDB.QueryContext(rctx, safe)
+		if rerr != nil {
+			refNote = rerr.Error()
+		}
+		if rerr == nil {
 			cols, _ := rs.Columns()
 			colT := make([]string, len(cols))
 			for i, n := range cols {
@@ -469,6 +482,7 @@ func runQuery(in input, c *hx.Case) error {
 				rowT = append(rowT, hx.L(cs))
 			}
 			tail := len(rowT) <= rowCap && rs.Err() != nil
+			refNote = fmt.Sprint(rs.Err())
 			rs.Close()
 			if ok {
 				refT = hx.Some(hx.T(hx.L(colT), hx.L(rowT), hx.B(tail)))
@@ -497,7 +511,7 @@ func runQuery(in input, c *hx.Case) error {
 		bs[i] = hx.B(b)
 	}
 	c.Obs = map[string]any{"err": fmt.Sprint(qerr), "out_len": len(out), "head": clipStr(out, 100),
-		"integrity": integ, "took_ms": took.Milliseconds()}
+		"integrity": integ, "took_ms": took.Milliseconds(), "ref_err": refNote}
 	c.Coq = hx.App("CQuery", hx.N(uint64(cellCap)), hx.N(uint64(rowCap)), hx.N(uint64(byteCap)), pstr(q), obsSan, refT,
 		obs, hx.N(reported(out)), hx.App("mk_integrity", bs...))
 	c.Tags = append(c.Tags, "query:"+tag)
